@@ -1888,15 +1888,8 @@ func (x *TX) inlineHelper(c *ssa.Call, callee *ssa.Function, args []*Term, plain
 	}
 	inlining[callee] = true
 	defer delete(inlining, callee)
-	for _, e := range x.p.closure(callee) {
-		switch e.Kind {
-		case "EXTERNAL", "R", "ITER", "PAGE", "PANIC", "ESCAPE", "UNRESOLVED":
-			// value identity is unaffected; the effects themselves are accounted for by
-			// the effect closure of the caller
-		default:
-			return nil
-		}
-	}
+	// (the helper's effects do not bear on the identity of the values it returns; they are
+	// accounted for by the effect closure / own() of the caller)
 	cx := x.p.tx(callee)
 	var ret *ssa.Return
 	keepErr := false
